@@ -11,6 +11,11 @@ def sortTracks (l : List (Nat × List Event)) : List (Nat × List Event) :=
 def field (impl k : String) : Option String :=
   ((impl.splitOn " ").find? (·.startsWith k)).map (fun f => (f.drop k.length).toString)
 
+/-- the first `LOOP_END` whose count is outside `0..255` (`[/]<0..255>`, mml_ref.md) -/
+def countsIn (song : Song) : Option (Nat × Int) :=
+  song.tracks.findSome? fun (id, evs) =>
+    (evs.find? fun e => e.type == ev_LOOP_END && (e.param < 0 || e.param > 255)).map fun e => (id, e.param)
+
 /-- C01 oracle: the real optimiser's output song, expanded by the spec, plays for every original
 track exactly what the input song plays; lengths, loop point times agree; the optimiser did not
 throw and the result validates. -/
@@ -49,7 +54,11 @@ def judge (arg impl : String) : String :=
           match bad with
           | [] =>
             if (field impl "after=").map (·.startsWith "err") == some true then "fail optimised song does not validate"
-            else "ok"
+            else match countsIn song, countsIn osong with
+              -- the optimiser keeps a song inside the documented domain of loop counts `[/]<0..255>`
+              -- (repair of D2; `C01_optimize_counts_le_255`)
+              | none, some (id, c) => s!"fail track {id}: loop count {c} outside 0..255 in the optimised song"
+              | _, _ => "ok"
           | x :: _ => "fail " ++ x
 
 def playerMsg : Player.PErr → String
@@ -102,5 +111,7 @@ def model (arg : String) : String :=
         let res := if r.validated then "ok" else match after with | .error m => "threw:" ++ m | .ok _ => "ok"
         s!"before={showV before} result={res} passes={r.passes.length} after={showV after} song= {dumpSong r.song}"
 
-def handlers : List Driver.Handler := [{ cmd := "opt", model := model, judge := judge }]
+def handlers : List Driver.Handler :=
+  [{ cmd := "opt", model := model, judge := judge },
+   { cmd := "optx", model := fun _ => optModelDeclines, judge := judge }]
 end Driver.OptD
